@@ -29,7 +29,9 @@ check('C02', 'model_checking',
       'leak is exhibited when allowed) and Terminates/OutcomeAllowed of SlyDriver on toy grammars; every parse_sql '
       'call over the corpus (test strings, accepted statements, token mutants incl. sign/key-removal mutants, random '
       'token soups with unicode, 3 dialects) is recorded at driver level and call level and both traces are validated '
-      'by TLC with the invariants evaluated at every step.',
+      'by TLC with the invariants evaluated at every step. Also: GrammarGen sentences and one sentence per production; '
+      'ClauseOrder.tla (the SELECT clause-order checker as an automaton, proved by TLC to accept exactly the clause '
+      'lists in SQL order) with every clause list up to 4 (thorough 5) parsed by the three real parsers and judged by TLC.',
       'Inputs are sampled (seeded); RecursionError on deep nesting is not provoked; termination = finite trace within '
       'a linear step budget.',
       'TLA+ specs SlyDriver + ParseSql, TLC exhaustive design check + TLC trace validation of recorded calls',
